@@ -38,9 +38,14 @@ pub enum Script {
     RestartStopDrop,
     /// the same, ending with drop without the second stop
     RestartDrop,
+    /// start, stay idle for longer than five seconds, execute*, wait, barrier round, stop, drop (native harness only)
+    IdleThenWork,
 }
 
-pub const SCRIPTS: [Script; 8] = [Script::WaitStopDrop, Script::StopEarlyDrop, Script::DropWithoutStop, Script::DropEarlyWithoutStop, Script::NeverStarted, Script::StartStopDrop, Script::RestartStopDrop, Script::RestartDrop];
+pub const SCRIPTS: [Script; 9] = [Script::WaitStopDrop, Script::StopEarlyDrop, Script::DropWithoutStop, Script::DropEarlyWithoutStop, Script::NeverStarted, Script::StartStopDrop, Script::RestartStopDrop, Script::RestartDrop, Script::IdleThenWork];
+
+/// how long `IdleThenWork` leaves the started pool without any task
+pub const IDLE_MICROS: u64 = 5_600_000;
 
 #[derive(Clone, Debug)]
 pub struct Scenario {
@@ -184,6 +189,10 @@ pub fn run(sc: &Scenario, env: &'static dyn Env, log: Arc<Log>, returned: Arc<At
         _ => {
             register(&mut pool);
             pool.start();
+            if sc.script == Script::IdleThenWork {
+                // an idle pool keeps all its workers: nothing may happen to them while no task arrives
+                env.pause(IDLE_MICROS);
+            }
             let restart = matches!(sc.script, Script::RestartStopDrop | Script::RestartDrop);
             let first_half = if restart { ntasks / 2 } else { ntasks };
             for (id, k) in sc.tasks.iter().enumerate().take(first_half) {
@@ -202,7 +211,7 @@ pub fn run(sc: &Scenario, env: &'static dyn Env, log: Arc<Log>, returned: Arc<At
                     out.submitted += 1;
                 }
             }
-            let waits = matches!(sc.script, Script::WaitStopDrop | Script::DropWithoutStop | Script::RestartStopDrop | Script::RestartDrop);
+            let waits = matches!(sc.script, Script::WaitStopDrop | Script::DropWithoutStop | Script::RestartStopDrop | Script::RestartDrop | Script::IdleThenWork);
             if waits {
                 if !wait_done(&log, ntasks, env) {
                     out.gave_up = Some("tasks did not all run before the barrier round".into());
@@ -229,7 +238,7 @@ pub fn run(sc: &Scenario, env: &'static dyn Env, log: Arc<Log>, returned: Arc<At
                 }
             }
             match sc.script {
-                Script::WaitStopDrop | Script::StopEarlyDrop | Script::RestartStopDrop => {
+                Script::WaitStopDrop | Script::StopEarlyDrop | Script::RestartStopDrop | Script::IdleThenWork => {
                     pool.stop();
                     drop(pool);
                 }
